@@ -30,6 +30,9 @@ Inductive case :=
           (* exemplars: expected trace_id / span_id (hex), per SDK point its exemplars (filtered attributes, value),
              per exposed series its exemplars (labels, value); both lists aligned with [pts] / the series of [fam] *)
           (tid sid : bytes) (pexs : list (list sdk_ex)) (oexs : list (list out_ex))
+          (* WithResourceAsConstantLabels: the resource attributes the filter keeps (set order), and per exposed series
+             the labels that came from them *)
+          (const_in : list Model.attr) (oconst : list (list Model.attr))
           (cb_errors : N)   (* observable callbacks that fail during the scrape (they observe nothing): one handled error each *)
 (** Several meters with the same name / version that differ only in their attributes: per meter its attributes
     + name + version (set order), and the label sets of all otel_scope_info series of the scrape. *)
@@ -41,6 +44,10 @@ Inductive case :=
     otel_scope_info series, the scope labels of its data series. *)
 | CScopeName (utf8 : bool) (real_name real_ver : bytes) (keys : list bytes)
              (info_labels : list Model.attr) (series_scopes : list (option (bytes * bytes)))
+(** A second instrument with the SAME name and unit but another kind (same or another scope): the families that
+    carry its series (name, type, number of series). *)
+| CCompanion (utf8 no_units no_total : bool) (ns : option (list N)) (name unit : bytes) (kind2 : N)
+             (fams : list (bytes * N * nat))
 | CAttrs (utf8 : bool) (input out : list Model.attr).   (* target_info labels of a resource *)
 
 Definition flag (b : bool) (code : N) : list N := if b then [] else [code].
@@ -179,7 +186,7 @@ Definition known_attrs (utf8 : bool) (l : list Model.attr) : bool := existsb (fu
 Definition check_case (c : case) : list N :=
   match c with
   | CScrape utf8 no_units no_total ns no_scope no_target name unit kind sn sv res scope_attrs pts gerr nerr target scope_info fam
-            tid sid pexs oexs cb_errors =>
+            tid sid pexs oexs const_in oconst cb_errors =>
       let cfg := {| Model.utf8 := utf8; without_units := no_units; without_counter_suffixes := no_total;
                     ns_opt := ns; without_scope_info := no_scope; without_target_info := no_target |} in
       let inp := {| ni_utf8 := utf8; ni_no_units := no_units; ni_no_total := no_total; ni_ns := ns;
@@ -201,7 +208,8 @@ Definition check_case (c : case) : list N :=
                                          exemplars_ok tid sid (snd pp) (snd ss)) oss in
       let xerr := N.of_nat (length (filter (fun pp => ex_eligible kind (snd (fst pp)) && covered (fst pp) &&
                                                       existsb ex_unrepresentable (snd pp)) (combine pts pexs))) in
-      flag (model_matches cfg name unit kind sn sv res scope_attrs pts pexs gerr nerr target scope_info fam cb_errors) V_MISMATCH ++
+      flag (model_matches cfg name unit kind sn sv res scope_attrs pts pexs gerr nerr target scope_info fam cb_errors &&
+            Nat.eqb (length oconst) (length os) && forallb (attrs_eqb (get_attrs utf8 const_in)) oconst) V_MISMATCH ++
       flag (negb gerr && (Bool.eqb target (negb no_target) || res_known) &&
             if scope_known then (nerr =? 1 + terr + cb_errors)
             else
@@ -215,6 +223,8 @@ Definition check_case (c : case) : list N :=
               (length os <=? length pts)%nat &&
               (N.of_nat (length os) + nerr =? N.of_nat (length pts) + terr + xerr + cb_errors) &&
               Nat.eqb (length pexs) (length pts) && Nat.eqb (length oexs) (length os) &&
+              (* every series carries exactly the configured constant resource labels *)
+              Nat.eqb (length oconst) (length os) && forallb (labels_ok utf8 const_in) oconst &&
               forallb ex_ok (combine pts pexs)) V_SPECFAIL ++
       flag (negb res_known && negb scope_known && (scope_known || forallb covered bad)) (V_KNOWN 2) ++
       flag (scope_known || forallb covered bad3) (V_KNOWN 3)
@@ -249,6 +259,19 @@ Definition check_case (c : case) : list N :=
          label is merged into it *)
       let known := negb utf8 && existsb (fun k => negb (reserved k) && reserved (sanitise k)) keys && series_ok in
       if info_ok && series_ok then [] else if known then [V_KNOWN 5] else [V_SPECFAIL]
+  | CCompanion utf8 no_units no_total ns name unit kind2 fams =>
+      let cfg := {| Model.utf8 := utf8; without_units := no_units; without_counter_suffixes := no_total;
+                    ns_opt := ns; without_scope_info := false; without_target_info := false |} in
+      let inp := {| ni_utf8 := utf8; ni_no_units := no_units; ni_no_total := no_total; ni_ns := ns;
+                    ni_name := name; ni_unit := unit; ni_counter := (kind2 =? 0) |} in
+      match fams with
+      | [(fname, ftype, n)] =>
+          flag (match get_name cfg name unit (is_counter (kind_of kind2)) with
+                | Name m => bytes_eqb m fname && (family_type (kind_of kind2) =? ftype)
+                | Crash => false end) V_MISMATCH ++
+          flag (name_ok inp fname && type_ok kind2 ftype && Nat.eqb n 1) V_SPECFAIL
+      | _ => [V_MISMATCH; V_SPECFAIL]   (* the second instrument is not exposed as exactly one family *)
+      end
   | CAttrs utf8 input out =>
       flag (attrs_eqb (get_attrs utf8 input) out) V_MISMATCH ++
       flag (labels_ok utf8 input out) V_SPECFAIL
